@@ -248,7 +248,7 @@ impl Clone for PVar {
 /// single changes that are also combined in pairs
 const N_SINGLES: usize = 15;
 /// all single changes (15..=17: skips with infinite stretch of order fill, filll and negative fil; 18: stretchy finite \\rightskip)
-const N_ALL_SINGLES: usize = 38;
+const N_ALL_SINGLES: usize = 45;
 /// fields touched by single change k (two changes of the same field are not combined)
 const FIELD_OF: [u8; N_SINGLES] = [0, 0, 1, 2, 3, 4, 4, 5, 5, 6, 7, 7, 8, 9, 3];
 
@@ -297,10 +297,18 @@ fn apply_single(v: &mut PVar, k: usize, u: i32) {
         35 => p.ex_hyphen_penalty = 9999,
         36 => p.ex_hyphen_penalty = 10001,
         37 => p.ex_hyphen_penalty = 20000,
+        // |line_penalty + b| >= 10000 (§859) reached on both sides, through the parameter
+        38 => p.line_penalty = -20000,
+        39 => p.line_penalty = -10001,
+        40 => p.line_penalty = -10000,
+        41 => p.line_penalty = -9999,
+        42 => p.line_penalty = 9999,
+        43 => p.line_penalty = 10000,
+        44 => p.line_penalty = 20000,
         _ => unreachable!(),
     }
 }
-/// 0 = plain defaults; 1..=38 = one change; then every pair of the first 15 changes that touch different fields.
+/// 0 = plain defaults; 1..=45 = one change; then every pair of the first 15 changes that touch different fields.
 fn pvars(u: i32, pairs: bool) -> Vec<(String, PVar)> {
     let base = PVar { params: Params::plain_tex_defaults(), emergency: 0, bare_end: false };
     let mut out = vec![("plain".to_string(), base.clone())];
@@ -626,6 +634,7 @@ fn check_instance(idx: u64, inst: &Inst, acc: &mut Acc) {
         // whether infinite glue is present on a line whose total of that order is zero
         let mut a = 0usize;
         let mut a_line = 1usize;
+        let (mut line_penalty_low, mut line_penalty_high) = (false, false);
         let mut prev_node = 0usize;
         for bi in seq {
             let Some(b) = o.bp_at(*bi) else { break };
@@ -639,6 +648,12 @@ fn check_instance(idx: u64, inst: &Inst, acc: &mut Acc) {
                 }
             }
             let (lb, _) = kp::fit_of(&m, lw);
+            if mp.line_penalty + lb <= -10000 {
+                line_penalty_low = true;
+            }
+            if mp.line_penalty + lb >= 10000 {
+                line_penalty_high = true;
+            }
             if lb == o.threshold && lb > 0 {
                 acc.count("optimum_line_with_badness_equal_to_the_threshold");
             }
@@ -670,6 +685,12 @@ fn check_instance(idx: u64, inst: &Inst, acc: &mut Acc) {
             }
             a = b + 1;
             prev_node = *bi;
+        }
+        if line_penalty_low && br.feasible >= 2 && br.totals_differ {
+            acc.count("line_penalty_plus_badness_at_or_below_minus_10000");
+        }
+        if line_penalty_high && br.feasible >= 2 && br.totals_differ {
+            acc.count("line_penalty_plus_badness_at_or_above_10000");
         }
     }
     if (0..o.bps.len()).any(|b| { let bb = o.fit(0, b, 1).0; bb == o.threshold + 1 && bb <= reftex::arith::INF_BAD }) {
@@ -862,7 +883,7 @@ impl Space {
             self.widths,
             self.tolerances,
             self.n_pvars(),
-            if self.pairs { " (plain, 38 single changes, all pairs of the first 15 that touch different fields)" } else { " (plain + single changes)" },
+            if self.pairs { " (plain, 45 single changes, all pairs of the first 15 that touch different fields)" } else { " (plain + single changes)" },
             self.loosenesses,
             self.forces,
             self.endings
@@ -1472,6 +1493,8 @@ fn main() {
     ctx.require("…with hyphen_penalty different from ex_hyphen_penalty", "the same with the two penalties different, so the choice is visible");
     ctx.require("explicit_kern_among_replaced_nodes", "an explicit kern inside the run a discretionary replaces");
     ctx.require("glue_right_after_a_replaced_explicit_kern", "glue directly after a replaced run that ends in an explicit kern");
+    ctx.require("line_penalty_plus_badness_at_or_below_minus_10000", "a line of the optimum has line_penalty + badness <= -10000 (charged 10^8, §859) and feasible sequences differ in demerits");
+    ctx.require("line_penalty_plus_badness_at_or_above_10000", "the same on the positive side");
     ctx.require("skipped_non_monotone", "the model detects instances outside the monotonicity premise");
     ctx.require("logged_feasible_breakpoints_checked", "feasible breakpoints reported through debug::Logger and checked against the model");
     ctx.finish("one evaluation = one call of break_line_single_attempt on an enumerated (list, line widths, tolerance, parameters) instance, judged end to end against the brute-force optimum over every sequence of legal breakpoints and per step against the model's badness/penalty/demerits for every logged feasible breakpoint; non-trivial = at least two feasible sequences with different total demerits");
